@@ -109,6 +109,52 @@ Lemma guids_ok_iff garm supplied ds :
   ~ In garm (supplied_for supplied ds) /\ NoDup (supplied_for supplied ds).
 Proof. unfold guids_ok. rewrite andb_true_iff, negb_true_iff, memb_false, nodupb_NoDup. tauto. Qed.
 
+(* ------------------------------------------------------------------ no memory of earlier calls *)
+(* The outcome of generate_adms for the graph stored under garm depends only on that graph (and the supplied /
+   generated ids), not on what else is in the store -- in particular not on the partitions left by, or anything
+   computed in, an earlier call.  (The implementation keeps self.node_ids on the ARM object; that it re-lists
+   the nodes on every call is what the history stream of the correspondence checks.) *)
+Lemma outcome_only_current st1 st2 garm supplied fresh :
+  sview st1 garm = sview st2 garm ->
+  snd (st_generate_adms st1 garm supplied fresh) = snd (st_generate_adms st2 garm supplied fresh).
+Proof.
+  intros H. unfold st_generate_adms. rewrite H.
+  destruct (node_ids (sview st2 garm)); [reflexivity|]. destruct (guids_ok _ _ _); reflexivity.
+Qed.
+
+Lemma depends_only_on_current_graph st1 st2 garm A supplied fresh st1' st2' dgs1 dgs2 :
+  sget st1 garm = Some A -> sget st2 garm = Some A -> wfb A = true ->
+  uuid_fresh garm supplied fresh (c_ids (catalog_delegations A)) ->
+  st_generate_adms st1 garm supplied fresh = (st1', Ok dgs1) ->
+  st_generate_adms st2 garm supplied fresh = (st2', Ok dgs2) ->
+  dgs1 = dgs2 /\ (forall d gid, In (d, gid) dgs1 -> sget st1' gid = sget st2' gid) /\
+  sget st1' garm = Some A /\ sget st2' garm = Some A.
+Proof.
+  intros H1 H2 Hw Hu R1 R2.
+  destruct (store_level _ _ _ _ _ _ _ H1 Hw Hu R1) as [L1 [G1 [D1 [S1 [P1 _]]]]].
+  destruct (store_level _ _ _ _ _ _ _ H2 Hw Hu R2) as [L2 [G2 [D2 [S2 [P2 _]]]]].
+  rewrite G1 in G2. inversion G2; subst L2. split; [congruence|]. split; [|tauto].
+  intros d gid Hi. rewrite D1 in Hi. apply in_map_iff in Hi. destruct Hi as [[d' P] [E Hi]]. simpl in E.
+  inversion E; subst. rewrite (P1 _ _ Hi), (P2 _ _ Hi). reflexivity.
+Qed.
+
+(* in particular a second call on the store left by a first one (new ids) partitions the same graph the same way *)
+Lemma repeatable st garm A sup1 fresh1 sup2 fresh2 st' dgs1 st'' dgs2 :
+  sget st garm = Some A -> wfb A = true ->
+  uuid_fresh garm sup1 fresh1 (c_ids (catalog_delegations A)) ->
+  uuid_fresh garm sup2 fresh2 (c_ids (catalog_delegations A)) ->
+  st_generate_adms st garm sup1 fresh1 = (st', Ok dgs1) ->
+  st_generate_adms st' garm sup2 fresh2 = (st'', Ok dgs2) ->
+  exists L, generate_adms A = Ok L /\ sget st'' garm = Some A /\
+    (forall d P, In (d, P) L -> sget st' (gid_for sup1 fresh1 d) = Some P /\ sget st'' (gid_for sup2 fresh2 d) = Some P).
+Proof.
+  intros HA Hw U1 U2 R1 R2.
+  destruct (store_level _ _ _ _ _ _ _ HA Hw U1 R1) as [L1 [G1 [_ [S1 [P1 _]]]]].
+  destruct (store_level _ _ _ _ _ _ _ S1 Hw U2 R2) as [L2 [G2 [_ [S2 [P2 _]]]]].
+  rewrite G1 in G2. inversion G2; subst L2. exists L1. split; [exact G1|]. split; [exact S2|].
+  intros d P Hi. split; [apply P1 | apply P2]; exact Hi.
+Qed.
+
 (* ------------------------------------------------------------------ the gap: closure is one hop deep *)
 (* a -L1- b -L2- c, only a carries a delegation (capacity, id 1).  b is kept as the peer of a; b's other
    link L2 and its peer c are not. *)
